@@ -5,13 +5,13 @@ ROOT = os.path.dirname(os.path.dirname(os.path.abspath(__file__)))
 logs = {}
 for f in sys.argv[1:]:
     for line in open(f):
-        m = re.match(r'^(C\d\d-[ABC]) violations=(\d+) undecided=(\d+) :: (.*)$', line.strip())
+        m = re.match(r'^(C\d\d-[A-D]) violations=(\d+) undecided=(\d+) :: (.*)$', line.strip())
         if m:
             logs[m.group(1)] = (int(m.group(2)), int(m.group(3)), m.group(4))
 conf = {}
 for f in glob.glob('/tmp/confirm_C*.log') + glob.glob('/tmp/confirm3_*.log'):
     for line in open(f):
-        m = re.match(r'^(C\d\d-[ABC]) clean_demo_rc=(\d+) mutated_demo_rc=(\d+) tests: (.*)$', line.strip())
+        m = re.match(r'^(C\d\d-[A-D]) clean_demo_rc=(\d+) mutated_demo_rc=(\d+) tests: (.*)$', line.strip())
         if m:
             conf[m.group(1)] = dict(clean_demo_rc=int(m.group(2)), mutated_demo_rc=int(m.group(3)), tests=m.group(4))
 rows = []
